@@ -807,6 +807,13 @@ func checkC10File(fc C10FileCase) (bool, *Violation) {
 					}
 					return nil
 				}
+				if ferr != nil && len(text) > 65536 {
+					// C10 speaks of configurations that are accepted; a loader that refuses a file of this size accepts nothing
+					// wrong (no property promises anything about files beyond 64 KiB - C09 stops there too). What it serves of
+					// such a file has to be what the file says, below.
+					classify("file larger than 64 KiB not served by the loader (allowed)")
+					return nil
+				}
 				if ferr != nil {
 					return violation("C10", "file-not-served", "", "%s of the file is a valid configuration but the loader does not serve it: %v\n%s", what, ferr, clip(text, 3000))
 				}
